@@ -157,13 +157,22 @@ def parse_all(repo):
     for fn, key in (("enforce_strictly_positive", "ESP"), ("enforce_non_negative", "ENN")):
         m = co.one(r"pub\s+fn\s+%s\s*\(\s*cost\s*:\s*Cost\s*\)\s*->\s*Cost\s*\{(.*?)\n    \}" % fn, "fn " + fn)
         body = " ".join(m.group(1).split())
-        mm = re.fullmatch(r"if cost (<=|<) Cost::ZERO \{ Cost::(\w+) \} else \{ cost \}", body)
+        mm = re.fullmatch(r"if cost (<=|<) Cost::(\w+) \{ Cost::(\w+) \} else \{ cost \}", body)
         if not mm:
             co.err(m.start(), "unrecognised body of %s: %r" % (fn, body))
-        if mm.group(2) not in out["cost"]:
-            co.err(m.start(), "%s substitutes unknown Cost::%s" % (fn, mm.group(2)))
-        out["clamps"][key] = ("CLe" if mm.group(1) == "<=" else "CLt", mm.group(2))
+        for g, what in ((2, "compares with"), (3, "substitutes")):
+            if mm.group(g) not in out["cost"]:
+                co.err(m.start(), "%s %s unknown Cost::%s" % (fn, what, mm.group(g)))
+        # (operator, substituted constant, constant the cost is compared with)
+        out["clamps"][key] = ("CLe" if mm.group(1) == "<=" else "CLt", mm.group(3), mm.group(2))
     return out
+
+
+# what the unchanged source says; written ONLY when the source cannot be translated and no generated file exists yet
+# (a scratch checkout), so that the model still compiles and the correspondence stream can search for a failing input.
+# generate() still reports ok = False in that case.
+BASELINE = {"cost": {"ZERO": ("ZERO", (0, 0)), "ONE": ("ONE", (1, 0)), "MIN_COST": ("MIN", (1, -10))},
+            "clamps": {"ESP": ("CLe", "MIN_COST", "ZERO"), "ENN": ("CLt", "ZERO", "ZERO")}}
 
 
 def digest(repo):
@@ -188,17 +197,19 @@ def render(p):
          "",
          "Module CostConsts.",
          "",
-         "Inductive cmp : Set := CLe | CLt.   (* `cost <= Cost::ZERO` | `cost < Cost::ZERO` *)",
+         "Inductive cmp : Set := CLe | CLt.   (* `cost <= bound` | `cost < bound` *)",
          ""]
     for name in ("ZERO", "ONE", "MIN_COST"):
         src, (m, e) = p["cost"][name]
         L.append("Definition %s : Z * Z := (%s, %s).   (* Cost::%s = InternalFloat::%s *)" % (name, coq_z(m), coq_z(e), name, src))
     L.append("")
     for key, fn in (("ESP", "enforce_strictly_positive"), ("ENN", "enforce_non_negative")):
-        op, sub = p["clamps"][key]
+        op, sub, bound = p["clamps"][key]
         m, e = p["cost"][sub][1]
-        L.append("(* Cost::%s: if cost %s Cost::ZERO { Cost::%s } else { cost } *)" % (fn, "<=" if op == "CLe" else "<", sub))
+        bm, be = p["cost"][bound][1]
+        L.append("(* Cost::%s: if cost %s Cost::%s { Cost::%s } else { cost } *)" % (fn, "<=" if op == "CLe" else "<", bound, sub))
         L.append("Definition %s_CMP : cmp := %s." % (key, op))
+        L.append("Definition %s_BOUND : Z * Z := (%s, %s)." % (key, coq_z(bm), coq_z(be)))
         L.append("Definition %s_SUBST : Z * Z := (%s, %s)." % (key, coq_z(m), coq_z(e)))
     L += ["", "End CostConsts."]
     return "\n".join(L) + "\n"
@@ -214,12 +225,21 @@ def write_if_changed(path, content):
 
 
 def generate(repo, gen_dir):
-    p = parse_all(repo)      # raises TranslateError (file:line) on anything unrecognised
+    target = os.path.join(gen_dir, "CostConsts.v")
+    try:
+        p = parse_all(repo)      # raises TranslateError (file:line) on anything unrecognised
+    except TranslateError as e:
+        wrote = ""
+        if not os.path.exists(target):
+            write_if_changed(target, "(* FALLBACK: the source could not be translated (%s); constants of the unchanged source *)\n"
+                             % re.sub(r"[^A-Za-z0-9_ ./:<=>{}-]", " ", str(e)) + render(BASELINE))
+            wrote = " [baseline constants written so that the stream can still search for a failing input]"
+        return {"ok": False, "msg": "TranslateError: %s%s" % (e, wrote), "digest": "", "changed": bool(wrote)}
     dg, per = digest(repo)
     changed = write_if_changed(os.path.join(gen_dir, "CostConsts.v"), render(p))
     return {"ok": True, "msg": "CostConsts.v: MIN_COST = %d * 10^%d, strictly-positive clamp %s -> %s, non-negative clamp %s -> %s%s"
-            % (p["cost"]["MIN_COST"][1][0], p["cost"]["MIN_COST"][1][1], p["clamps"]["ESP"][0], p["clamps"]["ESP"][1],
-               p["clamps"]["ENN"][0], p["clamps"]["ENN"][1], " (rewritten)" if changed else " (unchanged)"),
+            % (p["cost"]["MIN_COST"][1][0], p["cost"]["MIN_COST"][1][1], p["clamps"]["ESP"][0] + " " + p["clamps"]["ESP"][2], p["clamps"]["ESP"][1],
+               p["clamps"]["ENN"][0] + " " + p["clamps"]["ENN"][2], p["clamps"]["ENN"][1], " (rewritten)" if changed else " (unchanged)"),
             "digest": dg, "files": per, "changed": changed, "parsed": p}
 
 
